@@ -2,6 +2,7 @@
   UnytModel.Ops.C06 — opcodes of the C06 model (prefix `c06.`).
     c06.route <func>                         → unsupported | handled | default | unknown
     c06.run <func> <variant> <sig> p=q|b …   → the kernel call `Np.run` makes on symbolic arguments
+    c06.dispatch <func> <0|1>                → branch of `Np.dispatch` (1 = a foreign type takes part)
     c06.defects <func> <variant> <sig>       → defects of the regenerated row (comma separated)
     c06.static <func>                        → static defects of the handler
     c06.exclusions                           → the literal exclusion list
@@ -51,6 +52,15 @@ def opsC06 : Handler := fun st fields =>
         some (st, s!"ok\tcall\t{via}\t{r}\t{row.post.str}")
     | none, _ => some (st, "norow")
     | _, none => some (st, "bad-args")
+  -- the dispatcher on a symbolic call: which branch of `Np.dispatch` answers
+  | ["c06.dispatch", f, foreign] =>
+    let row : Row := ⟨f, "", "", false, [(true, f)], [("x", Fwd.same)], Post.id⟩
+    let o := dispatch Generated.npUnsupported Generated.npHandled c06Kernel (fun p => PyVal.qty ("?" ++ p) "u")
+      (fun r => r) (fun _ => "handler") (fun _ => row) (foreign == "1") f [("x", PyVal.qty "x" "u")]
+    match o with
+    | .raised e => some (st, s!"ok\traised\t{e}")
+    | .noKernel => some (st, "ok\tnokernel")
+    | .value u r => some (st, s!"ok\t{if u == "handler" then "handler" else "kernel"}\t{r}")
   | ["c06.defects", f, v, s] =>
     match c06FindRow f v s with
     | some row => some (st, s!"ok\t{",".intercalate (defects row)}")
